@@ -12,11 +12,22 @@ import json, os, sys, subprocess, shutil, time, glob
 ROOT = os.path.dirname(os.path.abspath(__file__))
 
 
+# profiles in which even the outcome of a single operation (accepted or refused) may follow Go's map iteration
+# order inside wrgl: `wrgl push` hands the remote's refs to the negotiation as haves in map order, and
+# ClosedSetsFinder.findCommons stops at the first have it does not know - whether a later, known have counts
+# decides whether shallow commits are among the commits to send (push refused) or not (push accepted). Both
+# outcomes satisfy the properties; the coverage flag `nontrivial` depends on them and is not compared.
+OUTCOME_LOOSE = {"C09", "C09f", "C10"}
+
+
 def _strip(res, loose):
     r = dict(res)
     r.pop("wall_ms", None)
     if loose:
-        return {"verdict": r.get("verdict"), "class": r.get("class"), "nontrivial": r.get("nontrivial")}
+        d = {"verdict": r.get("verdict"), "class": r.get("class"), "nontrivial": r.get("nontrivial")}
+        if r.get("profile") in OUTCOME_LOOSE:
+            d.pop("nontrivial")
+        return d
     # allocation-dependent numbers and real-time measurements are not part of the event log
     st = dict(r.get("stats") or {})
     for k in list(st):
